@@ -1,6 +1,7 @@
 import ScrapliProps.C01Lemmas
 import ScrapliProps.C01Interact
 import ScrapliProps.C01Platform
+import ScrapliProps.C01Driver
 /-
   C01 — a command's response is exactly what the device printed for that command.
   Property theorems only (helper lemmas and the definitions `Quiet`, `NoEarly`, `PromptOK`,
@@ -139,6 +140,131 @@ theorem expected_is_normalized_strip {P : Bytes → Bool} {cfg : Cfg} {dv : Line
     expected cfg dv true input = normalizeText (dv.rbody input ++ [NL]) :=
   processOutput_lines_strip cfg hf.ret (dv.rbody input) dv.prompt hf.prompt_ne hf.prompt_nl
     (rbody_plain hpl).1 hsub
+
+/-! ### the driver layer: `send_commands` (loop, `failed_when_contains`, `stop_on_failed`) over the channel -/
+
+/-- with `stop_on_failed` off every command is sent -/
+theorem sentAll_no_stop (fails : Bytes → Bool) (init : List Bytes) (last : Bytes) :
+    sentAll false fails init last = init ++ [last] := by
+  have h : ∀ cs, sentOf false fails cs = (cs, false) := by
+    intro cs
+    induction cs with
+    | nil => rfl
+    | cons c cs ih => rw [sentOf_cons_false cs (by rfl), ih]
+  unfold sentAll; rw [h]; simp
+
+/-- what is sent is always a prefix of the list given: nothing is reordered, repeated or invented -/
+theorem sentAll_prefix (stop : Bool) (fails : Bytes → Bool) (init : List Bytes) (last : Bytes) :
+    sentAll stop fails init last <+: init ++ [last] := by
+  unfold sentAll
+  split
+  · exact (sentOf_prefix stop fails init).trans (List.prefix_append _ _)
+  · rename_i h
+    have hall : ∀ cs, (sentOf stop fails cs).2 = false → (sentOf stop fails cs).1 = cs := by
+      intro cs
+      induction cs with
+      | nil => intro _; rfl
+      | cons c cs ih =>
+        intro h2
+        by_cases hb : (stop && fails c) = true
+        · rw [sentOf_cons_true cs hb] at h2; simp at h2
+        · have hb' : (stop && fails c) = false := by simpa using hb
+          rw [sentOf_cons_false cs hb'] at h2 ⊢
+          simp only at h2 ⊢
+          rw [ih h2]
+    rw [hall init (by simpa using h)]
+    exact List.prefix_refl _
+
+/-- with `stop_on_failed` on, a command whose result carries a failure marker is the LAST one sent -/
+theorem sentAll_failed_is_last (fails : Bytes → Bool) (init : List Bytes) (last : Bytes) (pre post : List Bytes) (c : Bytes)
+    (h : sentAll true fails init last = pre ++ c :: post) (hc : fails c = true) : post = [] := by
+  have key : ∀ cs pre post, (sentOf true fails cs).1 = pre ++ c :: post →
+      (post = [] ∧ (sentOf true fails cs).2 = true) := by
+    intro cs
+    induction cs with
+    | nil => intro pre post h; simp [sentOf] at h
+    | cons d ds ih =>
+      intro pre post h
+      by_cases hb : (true && fails d) = true
+      · rw [sentOf_cons_true ds hb] at h ⊢
+        simp only at h ⊢
+        cases pre with
+        | nil => simp only [List.nil_append, List.cons.injEq] at h; exact ⟨h.2.symm, by first | rfl | trivial⟩
+        | cons p ps =>
+          simp only [List.cons_append, List.cons.injEq] at h
+          have := h.2
+          cases ps <;> simp at this
+      · have hb' : (true && fails d) = false := by simpa using hb
+        rw [sentOf_cons_false ds hb'] at h ⊢
+        simp only at h ⊢
+        cases pre with
+        | nil =>
+          simp only [List.nil_append, List.cons.injEq] at h
+          rw [← h.1] at hc
+          simp [hc] at hb'
+        | cons p ps =>
+          simp only [List.cons_append, List.cons.injEq] at h
+          exact ih ps post h.2
+  unfold sentAll at h
+  split at h
+  · exact (key init pre post h).1
+  · rename_i hbroke
+    -- the loop did not break: `c` is either the last command, or in the loop part, where a failing command breaks
+    rcases List.append_eq_append_iff.1 h with ⟨a', h1, h2⟩ | ⟨c', h1, h2⟩
+    · cases a' with
+      | nil =>
+        simp only [List.nil_append, List.cons.injEq] at h2
+        exact h2.2.symm
+      | cons x xs =>
+        simp only [List.cons_append, List.cons.injEq] at h2
+        have := h2.2
+        cases xs <;> simp at this
+    · cases c' with
+      | nil =>
+        simp only [List.nil_append] at h2
+        have : [last] = c :: post := by simpa using h2.symm
+        simp only [List.cons.injEq] at this
+        exact this.2.symm
+      | cons x xs =>
+        simp only [List.cons_append, List.cons.injEq] at h2
+        obtain ⟨rfl, h3⟩ := h2
+        have := key init pre xs h1
+        exact absurd this.2 (by simpa using hbroke)
+
+/-- **C01, `send_commands`**: for every non-empty command list inside the quantifier, every `failed_when_contains`
+    list, `stop_on_failed` on or off and every segmentation of every read: the responses are, in order, exactly
+    those of the commands up to and including the first one whose OWN result carries a failure marker (all of
+    them when `stop_on_failed` is off — `sentAll_no_stop`, `sentAll_prefix`, `sentAll_failed_is_last`); each
+    `result` is that command's own `expected` text, each `failed` flag is computed from that text alone; the
+    device is sent exactly those commands, each followed by one return, and the session is in step afterwards. -/
+theorem send_commands_exact {P : Bytes → Bool} {cfg : Cfg} {dv : LineDev} (hf : Fits P cfg dv)
+    (strip : Bool) (fwc : List Bytes) (stop : Bool) (init : List Bytes) (last : Bytes)
+    (hg : ∀ i ∈ init ++ [last], GoodCmd P dv i)
+    (w : Wire) (hw : ∀ x ∈ w.avail, isHws x = true) (hheld : w.held = []) :
+    ∃ rs w', sendCommands cfg dv.onWrite strip fwc stop init last (w, []) = some (rs, (w', [])) ∧
+      rs.map (fun r => (r.result, r.failed)) =
+        (sentAll stop (fun c => failedOf fwc (expected cfg dv strip c)) init last).map
+          (fun c => (expected cfg dv strip c, failedOf fwc (expected cfg dv strip c))) ∧
+      w'.writes = w.writes ++
+        ((sentAll stop (fun c => failedOf fwc (expected cfg dv strip c)) init last).map (fun i => [i, cfg.ret])).flatten ∧
+      (∀ x ∈ w'.avail, isHws x = true) ∧ w'.held = [] := by
+  obtain ⟨rs, w1, h1, hres, hwr, ha, hh⟩ :=
+    sendCommandsLoop_exact hf strip fwc stop init (fun i hi => hg i (by simp [hi])) w hw hheld
+  unfold sentAll
+  cases hb : (sentOf stop (fun c => failedOf fwc (expected cfg dv strip c)) init).2 with
+  | true =>
+    rw [hb] at h1
+    refine ⟨rs, w1, ?_, by simpa using hres, by simpa using hwr, ha, hh⟩
+    unfold sendCommands; rw [h1]
+  | false =>
+    rw [hb] at h1
+    obtain ⟨r, w2, h2, hr, hfl, hw2, ha2, hh2⟩ := sendCommand_exact hf strip fwc last (hg last (by simp)) w1 ha hh
+    refine ⟨rs ++ [r], w2, ?_, ?_, ?_, ha2, hh2⟩
+    · unfold sendCommands; rw [h1]; simp only; rw [h2]; rfl
+    · simp only [Bool.false_eq_true, if_false, List.map_append, List.map_cons, List.map_nil, hres, hr, hfl]
+    · simp only [Bool.false_eq_true, if_false, List.map_append, List.map_cons, List.map_nil, List.flatten_append,
+        List.flatten_cons, List.flatten_nil, List.append_nil]
+      rw [hw2, hwr]; simp [List.append_assoc]
 
 /-! ### both return characters of the quantifier (`\n`, `\r\n`) -/
 
@@ -325,6 +451,40 @@ example (cuts : List Nat) :
     rw [h2]
     simp only [List.map_cons, List.map_nil]
     rw [expected_ret_indep exFits (Or.inr rfl) exCmd exGood.out_plain], by simpa using h3⟩
+
+/-- `send_commands_exact` on a concrete instance: three commands, the marker "line" occurs in the (long) output,
+    `stop_on_failed` on: exactly one command is sent and answered, flagged failed — for arbitrary cuts -/
+example (cuts : List Nat) :
+    ∃ rs w', sendCommands exCfg exDev.onWrite true [[108, 105, 110, 101]] true [exCmd, exCmd] exCmd
+        ({ avail := [32], cuts := cuts }, []) = some (rs, (w', [])) ∧
+      rs.map (fun r => (r.result, r.failed)) = [(expected exCfg exDev true exCmd, true)] ∧
+      w'.writes = [exCmd, [NL]] := by
+  obtain ⟨rs, w', h1, h2, h3, _, _⟩ := send_commands_exact exFits true [[108, 105, 110, 101]] true [exCmd, exCmd] exCmd
+    (by intro i hi; simp at hi; rcases hi with rfl | rfl <;> exact exGood) { avail := [32], cuts := cuts }
+    (by intro x hx; simp at hx; subst hx; decide) rfl
+  have hfail : failedOf [[108, 105, 110, 101]] (expected exCfg exDev true exCmd) = true := by decide
+  have hs : sentAll true (fun c => failedOf [[108, 105, 110, 101]] (expected exCfg exDev true c)) [exCmd, exCmd] exCmd = [exCmd] := by
+    unfold sentAll
+    rw [sentOf_cons_true _ (by simpa using hfail)]
+    rfl
+  rw [hs] at h2 h3
+  exact ⟨rs, w', h1, by simpa [hfail] using h2, by simpa [exCfg] using h3⟩
+
+/-- the same list with `stop_on_failed` off: all three are sent, each flagged from its own text -/
+example (cuts : List Nat) :
+    ∃ rs w', sendCommands exCfg exDev.onWrite true [[108, 105, 110, 101]] false [exCmd, exCmd] exCmd
+        ({ avail := [32], cuts := cuts }, []) = some (rs, (w', [])) ∧ rs.map (·.failed) = [true, true, true] := by
+  obtain ⟨rs, w', h1, h2, _, _, _⟩ := send_commands_exact exFits true [[108, 105, 110, 101]] false [exCmd, exCmd] exCmd
+    (by intro i hi; simp at hi; rcases hi with rfl | rfl <;> exact exGood) { avail := [32], cuts := cuts }
+    (by intro x hx; simp at hx; subst hx; decide) rfl
+  have hfail : failedOf [[108, 105, 110, 101]] (expected exCfg exDev true exCmd) = true := by decide
+  rw [sentAll_no_stop] at h2
+  refine ⟨rs, w', h1, ?_⟩
+  have := congrArg (List.map (·.2)) h2
+  simp only [List.map_map, List.map_append, List.map_cons, List.map_nil, hfail] at this
+  have hc : ((fun x : Bytes × Bool => x.2) ∘ fun r : Resp => (r.result, r.failed)) = (fun r : Resp => r.failed) := rfl
+  rw [hc] at this
+  simpa using this
 
 /-- the `group(0)` hypothesis of `get_prompt_exact` holds for the example pattern -/
 theorem exFirst : ∀ x L, (splitNL x).find? exP = some L →
